@@ -1,10 +1,10 @@
 CONSTANTS Clients = {1}  SrvUid = 0  SrvGid = 0
+  CreateAsFound = TRUE
   ShmFiles = {1, 2, 3}  SockFiles = {7}
 CONSTANT Uids <- MCUids
 CONSTANT Gids <- MCGids
 CONSTANT Modes <- MCModes
 CONSTANT Errs <- MCErrs
 SPECIFICATION MSpec
-CONSTRAINT NoKF_Dir
 INVARIANT FileModeWithinChosen
 CHECK_DEADLOCK FALSE
